@@ -89,6 +89,18 @@ impl Prop for PPrintf {
         let mut v = w.gen(rng, idx, tier);
         v["cfg"]["sorted"] = json!(true);
         v["cfg"]["prune"] = json!([]);
+        // -H with -depth and a starting point that is a link to a directory is a recorded finding of the
+        // traversal properties (C02/C03/C18); it is not what this property is about
+        if v["cfg"]["mode"] == "H" && v["cfg"]["depth"] == true {
+            let t = arr(&v["tree"]);
+            let linkroot = arr(&v["roots"]).iter().any(|r| {
+                let n = r["node"].as_u64().unwrap_or(0) as usize;
+                n > 0 && t[n - 1]["kind"] == "l"
+            });
+            if linkroot {
+                v["cfg"]["depth"] = json!(false);
+            }
+        }
         v.as_object_mut().unwrap().remove("form");
         if v["cfg"].get("modeflag").is_some() {
             v["cfg"].as_object_mut().unwrap().remove("modeflag");
